@@ -5,6 +5,7 @@ CONSTANTS Callers = {c1, c2}
  MaxAtt = 3
  FreshKey = FALSE
  MaxJunk = 0
+ MaxClose = 0
  Kinds = {"obj"}
  Dev = {"NotifyAllOnBadSalt", "StaleEntryAfterNotify"}
 INVARIANTS WireIdsIncrease SeqNoRules OwnResult AcceptedNeverResent SaltPersisted NoStallNotify NoStallDeliver
